@@ -6,9 +6,40 @@ runs in a worker subprocess under a deadline; handle states (hook H3) and the sc
 trace (hook H4) are compared with the model's guided replay; after the switch is lifted and after
 request_image_region the samples are compared bit-for-bit with the clean render."""
 from vlib import *
+import os
 from props.c08lib import *
 
 MODULES = ["JxlModel.Props.C08"]
+
+
+def loading_frame_faults(ctx):
+    """`render_loading_frame` is a render call too: fail it (H1) on prefixes of the fixture while it is
+    being fed, lift the fault, feed the rest; a later render that succeeds must give the clean samples
+    (the scenario is shared with C11: tools/props/c11.py `faulted_attempts`)"""
+    import feedlib as fl
+    from props import c11
+    ctx.cargo_build(["c09"])
+    path = fl.FIXTURE
+    n = os.path.getsize(path)
+    clean = (run_lines_robust([fl.H(ctx)], [f"script pushf:{path}:0:{n} finish"], per_line_timeout=120)[0] or "crash").split(" | ")[-1]
+    if not fl.is_clean_ok(clean):
+        ctx.failed_obligations.append("fixture not decoded by the feeding harness: " + clean[:200])
+        return
+    f = fl.fields(clean)
+    data = open(path, "rb").read()
+    first = fl.cs_to_file_offset(data, int(f["offs"].split(",")[0]))
+    c11.faulted_attempts(ctx, "fixture", "fixture", clean, data, {"file": path}, ctx.quick,
+                         slicer=lambda a, b: f"pushf:{path}:{a}:{b}", n_scripts=20 if ctx.quick else 200, cut_lo=first)
+    # encoder streams: single- and multi-frame, single-section frames (the AllGroupOffsets cache)
+    import hashlib
+    plans = fl.gen_plans(ctx.rng, 14 if ctx.quick else 150, 10 if ctx.quick else 100, 0)
+    for kind, line, cs in fl.encode(plans):
+        hexs = cs.hex()
+        clean = (run_lines_robust([fl.H(ctx)], [f"script push:{hexs} finish"])[0] or "crash").split(" | ")[-1]
+        if not fl.is_clean_ok(clean):
+            continue
+        c11.faulted_attempts(ctx, kind, hashlib.sha1(cs).hexdigest()[:12], clean, cs,
+                             {"kind": kind, "stream_hex": hexs, "plan": line[:3000]}, ctx.quick, n_scripts=8 if ctx.quick else 30)
 
 
 def run(ctx):
@@ -30,6 +61,7 @@ def run(ctx):
     images = fixture_images(ctx)
     for im in images:
         sweep_image(ctx, im, use_model=ok)
+    loading_frame_faults(ctx)
     ctx.assumptions += [
         "the fault model is the tracked-allocation switch H1 (fail the k-th and every later AllocTracker::alloc); "
         "corrupt groups / missing references are covered by the model's adversarial oracle only",
